@@ -38,7 +38,7 @@ BASES_CYC = [
     {"nodes": ["s", "a", "b", "c", "t"], "arcs": [["s", "a", 1], ["a", "b", 1], ["b", "c", 1], ["c", "a", 0], ["c", "t", 1]]},
 ]
 
-MUTATIONS = ["nonstring_node", "cycle", "no_source", "no_sink", "negative", "missing", "nonconserving", "cons_absent_arc", "cons_not_list", "cons_empty", "cons_nontuple",
+MUTATIONS = ["covlen_0", "covlen_neg", "covlen_big", "covlen_without_length_attr", "covlen_with_coverage", "nonstring_node", "cycle", "no_source", "no_sink", "negative", "missing", "nonconserving", "cons_absent_arc", "cons_not_list", "cons_empty", "cons_nontuple",
              "coverage_0", "coverage_neg", "coverage_big", "k_0", "k_neg", "k_frac", "weight_type_str", "origin_foo", "unknown_start", "unknown_end", "scale_big", "scale_neg", "empty_graph"]
 
 
@@ -61,6 +61,8 @@ def applicable(cls, mut, origin):
         return cls in WEIGHTED
     if mut == "nonconserving":
         return cls in FD and origin == "edge"
+    if mut.startswith("covlen"):
+        return cls in DAG  # length coverage exists for the DAG models only
     if mut.startswith("cons_") or mut.startswith("coverage"):
         return cls in HAS_CONS
     if mut.startswith("k_"):
@@ -100,9 +102,9 @@ def cases(tier, seed):
                     def grp(m):
                         if m in ("negative", "missing", "nonconserving"):
                             return "weights"
-                        return m.split("_")[0] if m.split("_")[0] in ("k", "coverage", "cons", "scale") else m
+                        return m.split("_")[0] if m.split("_")[0] in ("k", "coverage", "cons", "scale", "covlen") else m
                     for m1, m2 in itertools.combinations(muts, 2):
-                        if grp(m1) == grp(m2) or {grp(m1), grp(m2)} == {"coverage", "cons"}:
+                        if grp(m1) == grp(m2) or {grp(m1), grp(m2)} <= {"coverage", "cons", "covlen"}:
                             continue  # two violations of the same parameter overwrite each other
                         yield {"cls": cls, "base": base, "bi": bi, "origin": origin, "muts": [m1, m2], "fam": "cyc" if cls in CYC else "dag"}
 
@@ -175,6 +177,13 @@ def _build(case):
         elif m in ("coverage_0", "coverage_neg", "coverage_big"):
             kw.setdefault(ckey, [[first_arc]] if origin == "edge" else [[nodes[0]]])
             kw[ccov] = {"coverage_0": 0, "coverage_neg": -0.1, "coverage_big": 1.5}[m]
+        elif m.startswith("covlen"):
+            kw.setdefault(ckey, [[first_arc]] if origin == "edge" else [[nodes[0]]])
+            if m != "covlen_without_length_attr":
+                kw["length_attr"] = "length"
+            kw["subpath_constraints_coverage_length"] = {"covlen_0": 0, "covlen_neg": -0.1, "covlen_big": 1.5, "covlen_without_length_attr": 0.5, "covlen_with_coverage": 0.5}[m]
+            if m == "covlen_with_coverage":
+                kw["subpath_constraints_coverage"] = 0.5
         elif m == "k_0":
             kw["k"] = 0
         elif m == "k_neg":
